@@ -660,6 +660,29 @@ func semSession(p semProg, opts ugo.CompilerOptions, src string) (obs string, co
 	if opts.SymbolTable == nil {
 		opts.SymbolTable = ugo.NewSymbolTable()
 	}
+	// the table itself never hands out a disabled builtin, however often it is asked, and also when the name
+	// was resolved (and cached) before it got disabled
+	for _, d := range p.Disabled {
+		for i := 0; i < 3; i++ {
+			if sym, ok := opts.SymbolTable.Resolve(d.(string)); ok {
+				return fmt.Sprintf("SESSION: SymbolTable.Resolve(%q) = %v although the name is disabled (call %d)", d, sym, i+1), nil, nil
+			}
+		}
+	}
+	{
+		early := ugo.NewSymbolTable()
+		for _, d := range p.Disabled {
+			early.Resolve(d.(string))
+		}
+		for _, d := range p.Disabled {
+			early.DisableBuiltin(d.(string))
+		}
+		for _, d := range p.Disabled {
+			if sym, ok := early.Resolve(d.(string)); ok {
+				return fmt.Sprintf("SESSION: SymbolTable.Resolve(%q) = %v although the name was disabled after an earlier use", d, sym), nil, nil
+			}
+		}
+	}
 	ev := ugo.NewEval(opts, g, args...)
 	for round := 0; round < 2; round++ {
 		for _, d := range p.Disabled {
